@@ -623,7 +623,7 @@ class Pilot(object):
             # we will never see another state progression.  Raise an error
             # (unless we waited for this)
             if self.state in states:
-                return
+                return self.state
 
             # FIXME: do we want a raise here, really?  This introduces a race,
             #        really, on application level
@@ -632,6 +632,10 @@ class Pilot(object):
 
         start_wait = time.time()
         while self.state not in states:
+
+            # a final pilot will never reach any other state
+            if self.state in rps.FINAL:
+                break
 
             time.sleep(0.1)
             if timeout and (timeout <= (time.time() - start_wait)):
